@@ -229,6 +229,15 @@ pub fn fixed_pool() -> Vec<Value> {
     p.push(Value::make_time(Time::from_hms(0, 0, 0).unwrap()));
     p.push(Value::make_time(Time::from_hms_milli(0, 0, 0, 1).unwrap()));
     p.push(Value::make_time(Time::from_hms(23, 59, 59).unwrap()));
+    // a leap second (second 59, nanosecond field >= 1e9) next to the times of the following second
+    for (h, m, sec, ns) in [(12u32, 0u32, 59u32, 1_200_000_000u32), (12, 1, 0, 200_000_000), (12, 1, 0, 100_000_000), (12, 0, 59, 999_999_999), (23, 59, 59, 1_500_000_000), (12, 0, 59, 1_000_000_000), (12, 1, 0, 0)] {
+        p.push(Value::make_time(Time::from(chrono::NaiveTime::from_hms_nano_opt(h, m, sec, ns).unwrap())));
+    }
+    {
+        use chrono::TimeZone;
+        p.push(Value::make_datetime(DateTime::from(chrono_tz::UTC.timestamp_opt(1_600_000_019, 1_200_000_000).unwrap())));
+        p.push(Value::make_datetime(DateTime::from(chrono_tz::UTC.timestamp_opt(1_600_000_020, 200_000_000).unwrap())));
+    }
     // times (and timestamps) that differ only below the millisecond
     for ns in [1u32, 2, 999, 1_000, 1_000_001, 1_000_002] {
         p.push(Value::make_time(Time::from(chrono::NaiveTime::from_hms_nano_opt(12, 30, 15, ns).unwrap())));
@@ -336,9 +345,11 @@ pub fn grid_pool() -> Vec<Grid> {
     let mut g = base.clone();
     g.columns = vec![col("a", Some(dict_of(&[("m", Value::Marker)])))];
     out.push(g);
-    let mut g = base.clone();
-    g.ver = "2.0".into();
-    out.push(g);
+    for ver in ["2.0", "3", "3.00", "03.0", "3e0", "NaN", ""] {
+        let mut g = base.clone();
+        g.ver = ver.into();
+        out.push(g);
+    }
     out.push(Grid::make_from_dicts(vec![dict_of(&[("a", n(2.0))])]));
     out.push(Grid::make_from_dicts(vec![dict_of(&[("a", n(1.0))]), dict_of(&[("a", n(1.0))])]));
     out.push(Grid::make_from_dicts(vec![dict_of(&[("a", n(1.0)), ("b", n(1.0))])]));
